@@ -222,14 +222,14 @@ def check_kinematic(w, rep):
         rep.check("C05.kin", "SO3Quat.%s depends only on q" % jn, not free, "Jacobian still depends on the differentiation variable: %s" % sorted(map(repr, free)), where=W)
         qdot = cm.matmul(Jm, wv)
         prod = w.param(w.call(Q, "product", X, qw)) if side == "right" else w.param(w.call(Q, "product", qw, X))
-        verdict(rep, "C05.kin", "SO3Quat.%s w = 1/2 %s" % (jn, "q*(0,w)" if side == "right" else "(0,w)*q"), qdot, cm.ew(prod, Fraction(1, 2), cm.pmul), (), W,
+        verdict_by_branches(rep, "C05.kin", "SO3Quat.%s w = 1/2 %s" % (jn, "q*(0,w)" if side == "right" else "(0,w)*q"), qdot, cm.ew(prod, Fraction(1, 2), cm.pmul), (), W,
                 "quaternion rate is not half the product with the pure quaternion of w on the %s" % side)
         verdict(rep, "C05.kin", "SO3Quat.%s: q . qdot = 0 (unit norm kept)" % jn, cm.dot(q, qdot), zeros(1, 1), (), W, "quaternion rate has a component along q: the norm drifts")
         Rdot = MatVal(3, 3)
         for k, a in enumerate(qa):
             Rdot = cm.ew(Rdot, cm.ew(mat_diff(R, a), qdot.cells[k][0], cm.pmul), cm.padd)
         want = cm.matmul(R, Wh) if side == "right" else cm.matmul(Wh, R)
-        verdict(rep, "C05.kin", "SO3Quat.%s: R' = %s" % (jn, "R [w]x" if side == "right" else "[w]x R"), Rdot, want, [qa], W,
+        verdict_by_branches(rep, "C05.kin", "SO3Quat.%s: R' = %s" % (jn, "R [w]x" if side == "right" else "[w]x R"), Rdot, want, [qa], W,
                 "rotation matrix does not evolve as %s" % ("R [w]x" if side == "right" else "[w]x R"))
     # MRP body-frame Jacobian
     Mr = w.G("SO3Mrp")
